@@ -195,10 +195,20 @@ impl GenerationPass for AvailableValuePass {
                 let mut out_memory_n = if node.is_any_entry() {
                     AvailableValueMap::new()
                 } else {
+                    // A callee may use everything below the stack pointer (and
+                    // all of the stack when its position is not known)
+                    let below_sp = |location: &MemoryLocation| {
+                        node.calls_to().is_some()
+                            && match (location, node.reg_values_in().stack_offset()) {
+                                (MemoryLocation::StackOffset(offset), Some(sp)) => *offset < sp,
+                                (MemoryLocation::StackOffset(_), None) => true,
+                                _ => false,
+                            }
+                    };
                     let mut map: AvailableValueMap<MemoryLocation> = node
                         .memory_values_in()
                         .into_iter()
-                        .filter(|(_, value)| !is_stale(value))
+                        .filter(|(location, value)| !is_stale(value) && !below_sp(location))
                         .collect();
                     if let Some((MemoryLocation::StackOffset(offset), value)) =
                         node.gen_memory_value()
